@@ -15,7 +15,7 @@ from ..core import natlist, natlit
 
 def n_cases(ctx, E):
     if ctx.is_quick:
-        return (5 if E.slow else 25) if E.variant else (10 if E.slow else 75)
+        return (15 if E.slow else 25) if E.variant else (15 if E.slow else 75)
     return (30 if E.slow else 125) if E.variant else (60 if E.slow else 250)
 
 
